@@ -462,8 +462,8 @@ pub fn t_fault_retry_vl3(write: bool, all_free: bool) {
 }
 
 dharness! {
-#[kani::unwind(5)]
+#[kani::unwind(4)]
 fn dia_q_retry_vl3_write_all_free_acq() { t_fault_retry_vl3(true, true); }}
 dharness! {
-#[kani::unwind(5)]
+#[kani::unwind(4)]
 fn dia_q_retry_vl3_read_all_free_acq() { t_fault_retry_vl3(false, true); }}
